@@ -7,9 +7,9 @@ ROOT = os.path.join(os.path.dirname(os.path.abspath(__file__)), "..")
 props = [json.loads(l) for l in open(os.path.join(ROOT, "properties.jsonl"))]
 
 GRAPH = "DepGraph.tla (reference digraph) model-checked by TLC; every transition of its state graph (also with the last answered graph in the fingerprint: answer / deferred change / answer sequences), all digraphs <=4 nodes and all 3-node digraphs with repeated edges replayed on the real graph component; every query compared by the trace specification DepGraphTrace"
-CONT = "Container.tla (state, Apply, property-tagged guards) with the reference semantics of ContainerMC model-checked by TLC (all guards + state invariants over all histories within the bounds); every transition of the history model and every configuration of the factored configuration space (ContainerSweep) executed on the real container; every recorded event validated by TLC against ContainerTrace with Check={this property}"
+CONT = "Container.tla (state, Apply, property-tagged guards) with the reference semantics of ContainerMC model-checked by TLC (all guards + state invariants over all histories within the bounds); every transition of the history model and every configuration of the factored configuration space (ContainerSweep) executed on the real container; every recorded event validated by TLC against ContainerTrace with Check={this property}; long random walks of the history model (TLC simulation); staged builds and rebuilds after removals; batteries of API abuse / re-entrant and abnormally ending user code with a table of expected outcomes in the specification"
 
-CONC = "ScopeConc.tla (the concurrent protocol of provider and scopes, one action per critical section, threads as procedure stacks, context watchers) model-checked by TLC for 2-3 threads over all listed operation mixes (no double close, single scoped instance, quiescent accounting, children before parents, scopes before singletons, release, no deadlock); every gate-level transition emitted as a schedule and replayed on the real container by a cooperative scheduler built on the verif hook gates; random k-goroutine programs with real parallelism; all traces validated by TLC against ConcTrace"
+CONC = "ScopeConc.tla (the concurrent protocol of provider and scopes, one action per critical section, threads as procedure stacks, context watchers) model-checked by TLC for 2-3 threads over all listed operation mixes (no double close, single scoped instance, quiescent accounting, children before parents, scopes before singletons, release, no deadlock); every gate-level transition emitted as a schedule and replayed on the real container by a cooperative scheduler built on the verif hook gates; random k-goroutine programs with real parallelism; all traces validated by TLC against ConcTrace; three scope levels (s1 - s2 - s3); the lock-free lookup and the locked claim of a scoped construction as separate steps; free-running storms from a spin barrier (first resolutions in one scope, the same constructors in many scopes, Close from many goroutines) validated by summary events"
 
 REG = "Registry.tla (live descriptor sequence, snapshots, items incl. colliding multi-output and invalid Add calls) model-checked by TLC (atomic add, one registration per identity, stable snapshots, module transparency); every transition of RegistryMC replayed on a real collection: full query vector after every call, constructors run and resolvability matrix after every Build, earlier providers re-probed after every later edit; validated by TLC against RegistryTrace"
 
